@@ -359,6 +359,12 @@ Proof.
     rewrite IH by lia. lia.
 Qed.
 
+Lemma wf_add_sats_at outs i v : Forall wf_output outs -> Forall wf_output (add_sats_at outs i v).
+Proof.
+  intros Wo. revert i. induction Wo as [|o r Ho Hr IH]; intros [|i]; cbn [add_sats_at]; constructor; auto.
+  destruct Ho as [_ Hs]. split; [|exact Hs]. cbn [out_sats]. unfold add64. apply N.mod_lt. discriminate.
+Qed.
+
 Lemma nth_le_sum outs i d : (i < length outs)%nat ->
   out_sats (nth i outs d) <= fold_left (fun a o => a + out_sats o) outs 0.
 Proof.
@@ -413,7 +419,7 @@ Theorem existing_output_only_target_changes t q idx has t' :
   wf_tx t -> ~ ambiguous t -> no_overflow q t 0 = true ->
   change_existing t q idx = (FOk has, t') ->
   tx_version t' = tx_version t /\ tx_ins t' = tx_ins t /\ tx_lock t' = tx_lock t /\
-  length (tx_outs t') = length (tx_outs t) /\ idx < N.of_nat (length (tx_outs t)) /\
+  length (tx_outs t') = length (tx_outs t) /\ (has = true -> idx < N.of_nat (length (tx_outs t))) /\
   (forall j d, j <> N.to_nat idx -> nth j (tx_outs t') d = nth j (tx_outs t) d) /\
   map out_script (tx_outs t') = map out_script (tx_outs t) /\
   (has = false -> t' = t) /\
@@ -448,8 +454,7 @@ Proof.
     assert (W2 : wf_tx t2 /\ ~ ambiguous t2).
     { destruct W as (V & Lk & Wi & Wo & NI & NOu). split.
       - unfold wf_tx, t2. cbn [tx_version tx_ins tx_outs tx_lock]. rewrite add_sats_at_length. repeat split; auto.
-        clear -Wo. revert i. induction Wo as [|o r Ho Hr IH]; intros [|i]; cbn [add_sats_at]; constructor; auto.
-        destruct Ho as [_ Hs]. split; [|exact Hs]. cbn [out_sats]. unfold add64. apply N.mod_lt. discriminate.
+        apply wf_add_sats_at. exact Wo.
       - intros (_ & H & _). unfold t2 in H. cbn [tx_outs] in H.
         assert (length (add_sats_at (tx_outs t) i (total_in t - total_out t - fee)) = 0%nat) by (rewrite H; reflexivity).
         rewrite add_sats_at_length in *. lia. }
@@ -461,21 +466,22 @@ Proof.
       destruct (outs_len_scripts (tx_outs (set_ins t2 ins)) (tx_outs (set_ins t ins))) as [O1 O2].
       { cbn [set_ins tx_outs t2]. apply add_sats_at_scripts. }
       rewrite !tx_size_eq, O1, O2. cbn [set_ins tx_ins tx_outs t2]. rewrite add_sats_at_length. reflexivity. }
-    repeat split.
-    + apply add_sats_at_length.
-    + exact I.
-    + intros j d Hj. apply add_sats_at_nth. exact Hj.
-    + apply add_sats_at_scripts.
-    + discriminate.
-    + exists sf, df, sz. repeat split; auto; try discriminate.
-      * unfold dust. lia.
-      * intros _. rewrite add_sats_at_target by exact Hi. cbn [out_sats]. unfold add64.
-        apply N.mod_small. lia.
-      * rewrite (total_out_sum t2) by lia. change (total_in t2) with (total_in t). lia.
-      * rewrite (total_out_sum t2) by lia. change (total_in t2) with (total_in t). lia.
-  - intros [= <- <-]. repeat split; auto.
-    + unfold uint_to_int in G. destruct (N.ltb_spec idx (2 ^ 63)); lia.
-    + exists sf, df, sz. repeat split; auto; try discriminate.
-      * intros _. unfold dust. apply Hf. reflexivity.
-      * intros _. reflexivity.
+    split; [reflexivity|]. split; [reflexivity|]. split; [reflexivity|].
+    split; [apply add_sats_at_length|]. split; [intros _; exact I|].
+    split; [intros j d Hj; apply add_sats_at_nth; exact Hj|].
+    split; [apply add_sats_at_scripts|]. split; [discriminate|].
+    exists sf, df, sz. split; [exact Qs|]. split; [exact Qd|]. split; [exact E|]. split; [exact E2|].
+    cbv zeta. fold fee. split.
+    { split; [discriminate|]. unfold dust. intros; lia. }
+    intros _. split.
+    { rewrite add_sats_at_target by exact Hi. cbn [out_sats]. unfold add64. apply N.mod_small. lia. }
+    change (total_in t2) with (total_in t). rewrite (total_out_sum t2) by lia.
+    split; [reflexivity|]. split; lia.
+  - intros [= <- <-].
+    split; [reflexivity|]. split; [reflexivity|]. split; [reflexivity|]. split; [reflexivity|].
+    split; [discriminate|].
+    split; [intros; reflexivity|]. split; [reflexivity|]. split; [intros _; reflexivity|].
+    exists sf, df, sz. split; [exact Qs|]. split; [exact Qd|]. split; [exact E|]. split; [exact E|].
+    cbv zeta. split; [|discriminate].
+    split; [intros _; unfold dust; apply Hf; reflexivity|intros _; reflexivity].
 Qed.
